@@ -594,7 +594,9 @@ def c12_runner(prop, tier, seed, scratch, spec):
             problem = "shows a state other than the newest commit although the %s header was damaged%s" % ("older" if slot != newest[c] else "newest", " outside every checked byte" if harmless else "")
         elif want is None and idump not in (dprev[c], dnew[c]):
             problem = "shows neither the previous nor the newest commit"
-        elif want is None and idump == dnew[c] and len(changed) == 1 and c > 0:
+        elif want is None and idump == dnew[c] and len(changed) == 1 and c > 0 and dprev[c] != dnew[c]:
+            # (after a commit that changed nothing the two states have the same contents: which header was used
+            # cannot be told from the contents; the model's verdict, compared below, still applies)
             problem = "a header with one damaged checked byte (offset %d) was trusted" % list(changed)[0]
         if problem is None and io != mo:
             problem = "model and implementation disagree: model=%s" % mo[:100]
@@ -1062,7 +1064,7 @@ def c11_runner(prop, tier, seed, scratch, spec):
                 fl = "fault %s %d %d" % (kind, n, errno_) + (" %d" % short if short is not None else "")
                 hid = "c11-%d-l%d-%s%d-e%d%s" % (idx, li, kind, n, errno_, "-s%d" % short if short is not None else "")
                 # the same fault under strict mode (the commit runs DB::check between the data and the header)
-                cfgl = base[1].replace("strict=0", "strict=%d" % (len(variants) % 2))
+                cfgl = base[1].replace("strict=0", "strict=%d" % (len(variants) % 2)).replace("populate=0", "populate=%d" % (len(variants) // 2 % 2))
                 lines = ["hist " + hid, cfgl] + base[2:li] + [fl, base[li], "fired"] + c11_continuation(5000, 5000)
                 variants.append(lines)
                 fault_kinds["%s-%s" % (kind, "short-then-error" if short is not None and errno_ else "short-no-error" if short is not None else "fail")] += 1
@@ -1140,7 +1142,10 @@ def conc_batches(prop, tier, seed):
     if prop == "C04":
         b = [("iso", 3, 1, 1, "bounded", [1, 400, seed]), ("iso", 3, 1, 1, "bounded", [2, 2500 if q else 40000, seed]),
              ("iso", 2, 2, 1, "bounded", [1, 400, seed]), ("iso", 4, 2, 1, "bounded", [2, 1500 if q else 30000, seed + 1]),
-             ("iso", 3, 2, 1, "random", [300 if q else 20000, seed])]
+             ("iso", 3, 2, 1, "random", [300 if q else 20000, seed]),
+             # two writers, the second let into `DB::tx(true)` while the first is open (it blocks in the lock call):
+             # what a writer copies before it holds the writer lock is stale by the time it gets the lock
+             ("rmw", 2, 1, 2, "bounded-eager", [1, 300, seed]), ("rmw", 2, 1, 3, "random-eager", [150 if q else 5000, seed + 3])]
     else:
         b = [("rmw", 2, 1, 2, "bounded", [1, 400, seed]), ("rmw", 2, 1, 2, "bounded", [2, 1500 if q else 30000, seed]),
              ("rmw", 2, 2, 3, "bounded", [1, 500, seed]), ("rmw", 2, 1, 3, "random", [300 if q else 20000, seed]),
@@ -1212,9 +1217,30 @@ def conc_runner(prop, tier, seed, scratch, spec):
             f.write("%s %s %s %s %s %s%s\n" % (g("program"), g("commits"), g("readers"), g("writers"), g("preempt"), g("random") if g("random") != "-" else "", " eager" if g("eager") == "1" else ""))
             f.write("# %s\n" % why)
         violations.append((pth, why[:300] + " [" + hdr[:160] + "]", ""))
+    lock_search = None
+    if prop == "C09":
+        # search of the five-lock MODEL at the regenerated tables: when the lock programs computed from the
+        # source no longer respect the order (the theorem then does not check), this finds the schedule that
+        # deadlocks in the model — a model-level witness (the real-thread scheduler above explores the
+        # reader-admitting rwlock policy only and cannot park a thread inside a lock call of `resize`)
+        jl = os.path.join(vlib.LEAN, ".lake/build/bin/jlocks")
+        if os.path.exists(jl):
+            rc, out, e, _ = vlib.sh([jl], timeout=300)
+            lock_search = (out.strip().split("\n") or ["?"])[-1][:200] if rc == 0 else "deadlock found"
+            if rc != 0 and "DEADLOCK" in out:
+                pth = os.path.join(vlib.WORK, "replays", "C09-lock-model-deadlock.txt")
+                os.makedirs(os.path.dirname(pth), exist_ok=True)
+                open(pth, "w").write("# schedule of the five-lock model (Jamm/Model/LockOrder.lean) at the lock programs computed from the regenerated step tables\n# replay: cd /verif/lean && lake build jlocks && .lake/build/bin/jlocks\n" + out)
+                dl = [l for l in out.split("\n") if l.startswith("DEADLOCK")][0]
+                violations.append((pth, "the lock programs computed from the source deadlock in the model: " + dl[:220], ""))
+            elif rc != 0:
+                lock_search = "search failed: " + (out + e)[-200:]
+        else:
+            lock_search = "not run: the search executable did not build (step tables not regenerated)"
     cov = {
         "evaluations": total,
         "distinct_nontrivial": total,
+        "lock_model_search": lock_search,
         "rule": "each run = one program (real jammdb transactions on real threads) under one deterministic schedule at the instrumented yield points: all schedules with at most 1 preemption, a seeded sample of those with 2, seeded random schedules; distinct by construction (different preemption sets / seeds); observations checked by the Lean driver against the specification",
         "samples": per_batch[:6],
         "traces_validated_against_impl": total - len(bad_all),
